@@ -1036,7 +1036,7 @@ func (s *fragmentSegment) nanoseconds(group string, multiplier int) int64 {
 	if p <= 0 {
 		return n
 	}
-	return utils.Int64Pow(n*10, p)
+	return n * utils.Int64Pow(10, p)
 }
 
 func newMillisecondSegment(padChar rune, width int) segment {
